@@ -20,6 +20,21 @@ func checkC12(p *Prog, r *Report) {
 	r.NotDec = []string{"x/nft owner-index maintenance and iterators", "pagination", "identifiers in hand-written genesis files"}
 	r.Trusted = []string{"cosmos-sdk v0.47.12 x/nft keeper"}
 	kp := func(rule, rest string) string { return rule + ":C12:" + rest }
+	checkRequestsNotMutated(p, r, "C12", "x/pnft/types")
+	// every existing token survives an export: the exporter reads every class and every token of every class through the x/nft
+	// keeper's full iterators (not a by-owner or paginated view), for every denom
+	if pexp := p.Func(Rel("x/pnft"), "ExportGenesis"); pexp != nil {
+		reach := p.ReachFrom([]*ssa.Function{pexp}, func(f *ssa.Function) bool { return InModule(f) && !p.IsGenerated(f) })
+		readsNft := map[string]bool{}
+		for _, f := range reach.Order {
+			if n, ok := isNftKeeperMethod(f); ok {
+				readsNft[n] = true
+			}
+		}
+		r.Check(readsNft["GetClasses"] && readsNft["GetNFTsOfClass"] && readsNft["GetOwner"], kp("WMC", "pnft.ExportGenesis#reads-class+token+owner"),
+			"export reads every class, every token of every class and each token's current owner", p.FnPos(pexp), fmt.Sprint(keys(readsNft)), fmt.Sprintf("x/nft reads on the export path: %v — tokens that the export does not list are gone after the import", keys(readsNft)))
+		checkPnftExportLoop(p, r, kp, pexp)
+	}
 	// a token's creator, creation time and content survive export/import: the importer consumes every exported field
 	if pimp := p.Func(Rel("x/pnft"), "InitGenesis"); pimp != nil {
 		checkPnftImportReadsAllFields(p, r, kp, pimp)
